@@ -77,12 +77,13 @@ PROPS.update({
               "independently. For directed censuses the statement defines no count oracle: only invariance, canonical representatives and 'larger hyperedges ignored' are checked.",
               "DESIGN.md §7 C11"),
     "C12": dict(level="exploration",
-                technique="contract-based deductive verification (AST->VC, z3) of in/out degree, their sequences and exact_reciprocity + bounded run-time contract checking of signature and reciprocities",
+                technique="contract-based deductive verification (AST->VC, z3) of in/out degree, their sequences and the exact, strong and weak reciprocity + bounded run-time contract checking of signature and reciprocities",
                 text=("in_degree/out_degree(_sequence) are proved equal to the cardinality of the set of (filtered) hyperedges in which the node is a source / target, from the verified "
-                      "get_source_edges/get_target_edges contracts. exact_reciprocity is proved to return, for every size in 2..max, (number of hyperedges of that size whose reverse is "
-                      "stored) / (number of hyperedges of that size), 0 where there is none (fold-defined counts; the quotient itself is uninterpreted, so the [0,1] range and the "
-                      "ordering exact <= strong <= weak are not derived). The signature vector (numpy), strong and weak reciprocity and those inequalities are checked against literal "
-                      "definitions on all directed hypergraphs of a stated small scope."), design_ref="DESIGN.md §7 C12", assumptions=[]),
+                      "get_source_edges/get_target_edges contracts. exact_reciprocity, strong_reciprocity and weak_reciprocity are proved to return, for every size in 2..max, (number of "
+                      "in-range hyperedges of that size satisfying the definition: reverse stored / every source reached from the targets / some reversed source-target pair) divided by "
+                      "(number of hyperedges of that size), 0 where there is none (fold-defined counts; the quotient itself is uninterpreted, so the [0,1] range and the ordering "
+                      "exact <= strong <= weak are not derived). The signature vector (numpy) and those inequalities are checked against literal definitions on all directed hypergraphs "
+                      "of a stated small scope."), design_ref="DESIGN.md §7 C12", assumptions=[]),
     "C13": dict(level="exploration",
                 technique="contract-based deductive verification (AST->VC, z3) of the pairwise-reshuffle kernel for every outcome of the random draws + bounded run-time contract checking of the models over seeds",
                 text=("The kernel __pairwise_reshuffle is proved, for all inputs and ALL outcomes of np.random.rand(), to return two duplicate-free node lists of the original sizes whose "
